@@ -55,7 +55,6 @@ func checkC01(r *core.Run) {
 	r.Floor("nondet_source_sites", d1sites, 1) // the telemetry time.Now in node.BeginBlocker
 	r.Floor("map_range_sites", d2sites, 3)     // Terminate, UpdateMeta force-push, DoPenalty
 	ruleD3(r)
-	runPositives(r, "D1", "D2", "D3", "D4", "D5")
 }
 
 func checkC03(r *core.Run) {
@@ -68,7 +67,6 @@ func checkC03(r *core.Run) {
 	r.Assume(aGen)
 	ruleD3(r)
 	r.Floor("functions_in_scope", len(e5Scope(r)), 150)
-	runPositives(r, "D3")
 }
 
 func bad(hs []hit) int {
